@@ -419,11 +419,31 @@ Definition create_f2_v0 (x : input) : outcome := create_with (kwa_format_v0 x) (
 (* ---------------------------------------------------------------- the receiving side, by composition *)
 From Verif Require C01.Model C04.Model C05.Model C06.Model.
 
+(* an assertion consumer endpoint as WRITTEN in the requester's configuration (docs/howto/config.rst, "endpoints":
+   "An endpoint specification can either be just the URL ... or a 2-tuple (URL+binding) ... or a 3-tuple
+   (URL+binding+index)"); a tuple and a list are the same thing to the code (`type(endpspec) in (tuple, list)`).
+   The index is kept as the decimal text the metadata shows for it. *)
+Inductive acsconf :=
+| ABare (url : string)
+| APair (url bind : string)
+| AIndexed (url bind idx : string).
+
+(* Config.endpoint, the unpacking step: a tuple/list is cut to its first two members (`endpspec[0:2]`: the index of a
+   triple is dropped), a str does not unpack (ValueError) and is kept as an endpoint without a binding *)
+Definition conf_ep (e : acsconf) : C04.Model.epspec :=
+  match e with
+  | ABare u => C04.Model.Bare u
+  | APair u b => C04.Model.EP u b
+  | AIndexed u b _ => C04.Model.EP u b
+  end.
+
+Definition BINDING_HTTP_REDIRECT : string := "urn:oasis:names:tc:SAML:2.0:bindings:HTTP-Redirect".
+
 (* a service provider built from the same metadata *)
 Record spside := {
   sp_me : string;                              (* its entityID *)
   sp_idp : string;                             (* the IdP's entityID in its metadata *)
-  sp_specs : list C04.Model.epspec;            (* its assertion consumer endpoints *)
+  sp_acs : list acsconf;                       (* its assertion consumer endpoints, as configured *)
   sp_binding : string;                         (* binding the Response arrives on *)
   sp_wr : C01.Model.optv;                      (* want_response_signed *)
   sp_wa : C01.Model.optv;                      (* want_assertions_signed *)
@@ -436,8 +456,11 @@ Record spside := {
                                                   no acceptance model reads it: all comparisons are made in UTC *)
 }.
 
+(* what Config.endpoint("assertion_consumer_service", ..) works on *)
+Definition sp_specs (s : spside) : list C04.Model.epspec := map conf_ep (sp_acs s).
+
 Definition sp_in_zone (z : Z) (s : spside) : spside :=
-  {| sp_me := sp_me s; sp_idp := sp_idp s; sp_specs := sp_specs s; sp_binding := sp_binding s; sp_wr := sp_wr s;
+  {| sp_me := sp_me s; sp_idp := sp_idp s; sp_acs := sp_acs s; sp_binding := sp_binding s; sp_wr := sp_wr s;
      sp_wa := sp_wa s; sp_wor := sp_wor s; sp_atd := sp_atd s; sp_allow_unsolicited := sp_allow_unsolicited s;
      sp_outstanding := sp_outstanding s; sp_now := sp_now s; sp_zone := z |}.
 
@@ -447,12 +470,22 @@ Definition sigst_of (s : option (string * string)) : C01.Model.sigst :=
 Definition in01 (s : spside) (r : issued) : C01.Model.input :=
   {| C01.Model.o_wr := sp_wr s; C01.Model.o_wa := sp_wa s; C01.Model.o_wor := sp_wor s;
      C01.Model.rs := sigst_of (s_response r); C01.Model.as_ := sigst_of (s_assertion r);
-     C01.Model.enc := false; C01.Model.binding := C01.Model.POST |}.
+     C01.Model.enc := false;
+     C01.Model.binding := if String.eqb (sp_binding s) BINDING_HTTP_REDIRECT then C01.Model.Redirect else C01.Model.POST |}.
 
-Definition in04 (s : spside) (r : issued) : C04.Model.input :=
-  {| C04.Model.me := sp_me s; C04.Model.specs := sp_specs s; C04.Model.binding := sp_binding s;
+(* the unpacking step of Config.endpoint is a parameter, so that other readings of a specification can be named and
+   refuted (Proofs.v: unpack_noslice, unpack_tuple_only) *)
+Definition in04_with (unpack : list acsconf -> list C04.Model.epspec) (s : spside) (r : issued) : C04.Model.input :=
+  {| C04.Model.me := sp_me s; C04.Model.specs := unpack (sp_acs s); C04.Model.binding := sp_binding s;
      C04.Model.rs := map (map (@Some string)) (i_audiences r);
      C04.Model.dest := r_destination r; C04.Model.conv := None; C04.Model.recip := i_recipient r |}.
+
+Definition in04 (s : spside) (r : issued) : C04.Model.input := in04_with (map conf_ep) s r.
+
+(* a reading without the slice (`endp, bind = endpspec` for every specification): a triple does not unpack, lands
+   among the unspecified ones as the raw triple and equals no URL there, i.e. it is as good as not configured *)
+Definition unpack_noslice (acs : list acsconf) : list C04.Model.epspec :=
+  flat_map (fun e => match e with AIndexed _ _ _ => [] | _ => [conf_ep e] end) acs.
 
 Definition in05 (s : spside) (r : issued) : C05.Model.input :=
   {| C05.Model.now := sp_now s; C05.Model.atd := sp_atd s;
@@ -483,10 +516,14 @@ Definition shape_ok (s : spside) (r : issued) : bool :=
   && match i_authn r with Some (None, _) => false | _ => true end.
 
 (* identity reported by the service provider: released attributes, expiry, stored context of the request *)
-Definition sp_accepts (s : spside) (r : issued) : option (attrs * Z * option string) :=
-  if shape_ok s r && C01.Model.parse_response (in01 s r) && C04.Model.identity (in04 s r) then
+Definition sp_accepts_with (unpack : list acsconf -> list C04.Model.epspec) (s : spside) (r : issued)
+  : option (attrs * Z * option string) :=
+  if shape_ok s r && C01.Model.parse_response (in01 s r) && C04.Model.identity (in04_with unpack s r) then
     match C05.Model.accept (in05 s r), C06.Model.accept (in06 s r) with
     | C05.Model.Accept nooa, C06.Model.Identity cf => Some (i_attributes r, nooa, cf)
     | _, _ => None
     end
   else None.
+
+Definition sp_accepts (s : spside) (r : issued) : option (attrs * Z * option string) :=
+  sp_accepts_with (map conf_ep) s r.
